@@ -29,7 +29,8 @@
 (***************************************************************************)
 EXTENDS Naturals, Sequences, FiniteSets, TLC, Json
 
-CONSTANTS MaxP,        \* parameters per layout
+CONSTANTS MinP,        \* a layout is finished with at least this many parameters (0; > 0 to sample long signatures)
+          MaxP,        \* parameters per layout
           AnnStates,   \* subset of {"none", "plain", "string"}
           RetStates    \* subset of {"none", "None", "plain", "string"}
 
@@ -121,7 +122,7 @@ Init == params = <<>> /\ ret = "none" /\ phase = "build"
 AddParam == /\ phase = "build" /\ Len(params) < MaxP
             /\ \E p \in ParamShapes : Valid(Append(params, p)) /\ params' = Append(params, p)
             /\ UNCHANGED <<ret, phase>>
-Finish == /\ phase = "build" /\ \E r \in RetStates : ret' = r
+Finish == /\ phase = "build" /\ Len(params) >= MinP /\ \E r \in RetStates : ret' = r
           /\ phase' = "done" /\ UNCHANGED params
 Next == AddParam \/ Finish
 Spec == Init /\ [][Next]_vars
